@@ -130,6 +130,16 @@ func (g *gen) try(depth int) Cmd {
 		h := g.script(1+hx.Uniform(g.rt, 3, "hlen"), depth, 12, 8)
 		if often(g.rt, 18, "handlerfails") {
 			g.injectFailure(h, hx.Uniform(g.rt, len(h), "hfailpos"))
+			if sec != secFin && often(g.rt, 60, "patient") {
+				// the failing command of a success/fail handler waits for the finally handler to begin
+				// before it fails (only direct commands of the handler; W is ignored when the try block
+				// has no finally handler)
+				for i := range h {
+					if h[i].K == "p" && h[i].F {
+						h[i].W = true
+					}
+				}
+			}
 		}
 		switch sec {
 		case secSucc:
@@ -147,7 +157,7 @@ func (g *gen) try(depth int) Cmd {
 // optional probes between and after them.
 func Gen(rt *rapid.T) Case {
 	c := Case{
-		Ctx:   []string{"shared", "own", "isolated"}[hx.Uniform(rt, 3, "ctx")],
+		Ctx:   []string{"shared", "own", "isolated", "fresh"}[hx.Uniform(rt, 4, "ctx")],
 		Procs: []int{1, 2, 4, 8}[hx.Uniform(rt, 4, "procs")],
 		Loud:  often(rt, 25, "loud"),
 	}
